@@ -52,7 +52,7 @@ def Fixes.repaired : Fixes := ⟨true, true⟩
 FLIP HERE when a fix is committed: `copyCarriesMeta := true` with
 fixes/C24-cross-copy-carries-metadata.patch, `dedupBuckets := true` with
 fixes/C24-list-buckets-dedup.patch. (The theorems speak of `asIs` / `repaired`, never of `code`.) -/
-def Fixes.code : Fixes := { copyCarriesMeta := false, dedupBuckets := false }
+def Fixes.code : Fixes := { copyCarriesMeta := true, dedupBuckets := true }
 
 abbrev Stores := List State
 
